@@ -476,11 +476,25 @@ fn parse_name<T: Pep508Url>(cursor: &mut Cursor) -> Result<PackageName, Pep508Er
             Some(_) | None => {
                 // The scanner above only rejects trailing punctuation at the end of the input;
                 // `name- >=1` or `name_[extra]` get here with an invalid name.
-                return PackageName::new(name).map_err(|err| Pep508Error {
-                    message: Pep508ErrorSource::String(err.to_string()),
-                    start,
-                    len: cursor.pos() - start,
-                    input: cursor.to_string(),
+                return PackageName::new(name).map_err(|err| {
+                    // A URL or path whose first segment is not a valid name (`a-://host/x`,
+                    // `dir_/pkg.whl`) is still a URL or path without a package name.
+                    let mut clone = cursor.clone().at(start);
+                    if looks_like_unnamed_requirement(&mut clone) {
+                        Pep508Error {
+                            message: Pep508ErrorSource::UnsupportedRequirement("URL requirement must be preceded by a package name. Add the name of the package before the URL (e.g., `package_name @ /path/to/file`).".to_string()),
+                            start,
+                            len: clone.pos() - start,
+                            input: clone.to_string(),
+                        }
+                    } else {
+                        Pep508Error {
+                            message: Pep508ErrorSource::String(err.to_string()),
+                            start,
+                            len: cursor.pos() - start,
+                            input: cursor.to_string(),
+                        }
+                    }
                 });
             }
         }
